@@ -1330,23 +1330,22 @@ func p2Plans(quick bool) (specs []p2Spec, defects []string) {
 	specs = []p2Spec{
 		// every order to its end (deliveries after the commit included), the step-4 timer interleaved
 		{Cfg: "b", Me: "out", Extras: 1, Timer: true, Full: true},
-		{Cfg: "c", Me: "out", Extras: 1, Timer: true, Full: true},
+		{Cfg: "c", Me: "out", Extras: 1, Timer: true},
 		{Cfg: "a", Me: "out", Extras: 1, Timer: true},
 		{Cfg: "b-", Me: "out", Extras: 1, Timer: true},
 	}
-	for _, me := range []string{"a0", "a1", "b0", "b1", "b2", "c0"} {
+	for _, me := range []string{"a0", "b0", "b1", "c0"} {
 		specs = append(specs, p2Spec{Cfg: me[:1], Me: me, Extras: 1, Timer: true, Full: true})
 	}
 	specs = append(specs,
 		p2Spec{Cfg: "b-", Me: "b0", Extras: 1, Timer: true, Full: true},
-		p2Spec{Cfg: "b-", Me: "b1", Extras: 1, Timer: true, Full: true},
 		// certificate round (2·ACoCHTFrequency): precommits and certificate votes of the other members, every interleaving
 		p2Spec{Cfg: "b", Cert: true, Me: "b0", Extras: 0},
 		p2Spec{Cfg: "b", Cert: true, Me: "b1", Extras: 1}, // + one vote (precommit or certificate) for the competing block where at most 3 votes interleave
 		p2Spec{Cfg: "a", Cert: true, Me: "a0", Extras: 0},
 		p2Spec{Cfg: "b", Cert: true, Me: "out", Extras: 0, Max: 4},
 		// round index 2 after the node went through index 1: re-votes, and votes of index 1 arriving late
-		p2Spec{Cfg: "b", Me: "out", RI: 2, Extras: 1, Stale: true, Full: true},
+		p2Spec{Cfg: "b", Me: "out", RI: 2, Extras: 1, Stale: true},
 		// pairs of extra messages (two equivocators, equivocator + duplicate, two duplicates), up to the commit
 		p2Spec{Cfg: "b", Me: "out", Extras: 2},
 	)
